@@ -88,6 +88,9 @@ var shapes = []shape{
 	{"github", "github.com/o/r", "remote", false},
 	{"docker-image", "docker-image://alpine:3", "remote", false},
 	{"any-scheme", "foo://bar/baz", "remote", false},
+	{"docker-image-tag", "docker-image://alpine:3.19", "remote", false},
+	{"docker-image-digest", "docker-image://alpine@sha256:0123abcd", "remote", false},
+	{"odd-scheme", "x+y://a:b/c", "remote", false},
 	{"named", "data", "named", false},
 }
 
@@ -138,7 +141,7 @@ func shapeAllowed(k attrKind, sh shape) bool {
 	return true
 }
 
-var origins = []string{"main", "override", "include", "include-project-directory", "include-depth-2", "extends", "extends-chain", "extends-own"}
+var origins = []string{"main", "override", "include", "include-project-directory", "include-depth-2", "extends", "extends-chain", "extends-own", "extends-sibling-dir", "include-sibling-dir"}
 
 func originAllowed(k attrKind, o string) bool {
 	if k.Resource && strings.HasPrefix(o, "extends") {
@@ -220,6 +223,10 @@ func baseOf(wd, origin string) string {
 		return wd + "/ext"
 	case "extends-chain":
 		return wd + "/ext2"
+	case "extends-sibling-dir":
+		return wd + "-common" // a sibling directory whose name starts with the project directory's name
+	case "include-sibling-dir":
+		return wd + "-infra"
 	}
 	return wd // main, override, extends-own
 }
@@ -269,6 +276,10 @@ func fileOf(origin string) string {
 		return "ext"
 	case "extends-chain":
 		return "ext2"
+	case "extends-sibling-dir":
+		return "extsib"
+	case "include-sibling-dir":
+		return "incsib"
 	}
 	panic(origin)
 }
@@ -303,7 +314,7 @@ func build(seedWD, mainElsewhere int, combos []combo) *scenario {
 	sc := &scenario{WD: wd, Home: homeRel}
 	d := &docs{files: map[string]map[string]any{}}
 	extraFiles := map[string]string{}
-	dirs := []string{wd + "/pd2", homeRel, wd + "/inc1/sub", wd + "/ext", wd + "/ext2"}
+	dirs := []string{wd + "/pd2", homeRel, wd + "/inc1/sub", wd + "/ext", wd + "/ext2", wd + "-common", wd + "-infra"}
 
 	mainSvcs := d.section("main", "services")
 	d.section("main", "volumes")["data"] = map[string]any{}
@@ -395,6 +406,9 @@ func build(seedWD, mainElsewhere int, combos []combo) *scenario {
 			d.section("ext2", "services")["c"+name] = attrs
 			d.section("ext", "services")["b"+name] = map[string]any{"extends": map[string]any{"file": "../ext2/base2.yaml", "service": "c" + name}}
 			mainSvcs[name] = map[string]any{"extends": map[string]any{"file": "ext/base.yaml", "service": "b" + name}}
+		case "extends-sibling-dir":
+			d.section("extsib", "services")["b"+name] = attrs
+			mainSvcs[name] = map[string]any{"extends": map[string]any{"file": "../" + path.Base(wd) + "-common/base.yaml", "service": "b" + name}}
 		case "extends-own":
 			d.section("ext", "services")["b"+name] = map[string]any{"image": "base-img", "working_dir": "./from-base"}
 			attrs["extends"] = map[string]any{"file": "ext/base.yaml", "service": "b" + name}
@@ -421,6 +435,9 @@ func build(seedWD, mainElsewhere int, combos []combo) *scenario {
 	if d.files["inc2"] != nil {
 		includes = append(includes, map[string]any{"path": "inc2/c.yaml", "project_directory": "pd2"})
 	}
+	if d.files["incsib"] != nil {
+		includes = append(includes, "../"+path.Base(wd)+"-infra/compose.yaml")
+	}
 	if len(includes) > 0 {
 		d.files["main"]["include"] = includes
 	}
@@ -432,6 +449,7 @@ func build(seedWD, mainElsewhere int, combos []combo) *scenario {
 	locs := map[string]string{
 		"main": mainPath, "override": wd + "/override.yaml", "inc1": wd + "/inc1/compose.yaml", "sub": wd + "/inc1/sub/compose.yaml",
 		"inc2": wd + "/inc2/c.yaml", "ext": wd + "/ext/base.yaml", "ext2": wd + "/ext2/base2.yaml",
+		"extsib": wd + "-common/base.yaml", "incsib": wd + "-infra/compose.yaml",
 	}
 	files := map[string]string{}
 	for k, doc := range d.files {
